@@ -84,6 +84,10 @@ def build(spec):
              feed_unexpected_kinds=["known_county", "unknown_county"], B=10)
     if kind == "state_blocklisted":
         o["el_n_states"] = int(rng.integers(2, 5))
+    if est == "gaussian" and kind == "nonreporting":
+        # counties of very different size: some hold enough calibration units for their own gaussian model, others
+        # fall back to their state, so that group-wise and fallback rows are mixed in one aggregate
+        o.update(el_n_units=int(rng.integers(150, 350)), el_county_size_spread=1.0, el_counties_per_state=int(rng.integers(3, 7)))
     el, feed, status, call = cases_mod.build(spec["seed"], PROPERTY, i, o)
     mp = call["model_parameters"]
     if est != "bootstrap" and not call["features"]:
@@ -118,6 +122,11 @@ def build(spec):
         j = feed2.index[feed2.geographic_unit_fips == victim][0]
         t, d, g = [float(feed2.loc[j, c]) for c in ("results_turnout", "results_dem", "results_gop")]
         f1, f2, f3 = rng.uniform(0.3, 2.5), rng.uniform(0.3, 2.5), rng.uniform(0.3, 2.5)
+        if rng.random() < 0.4:  # a partial count far above anything the model predicts (binding floors in its groups)
+            big = float(rng.uniform(8, 30))
+            f1, f2, f3 = f1 * big, f2 * big, f3 * big
+            base_t = float(el.pre.set_index("geographic_unit_fips").baseline_turnout.get(victim, 100) or 100)
+            t, d, g = max(t, base_t), max(d, base_t * 0.5), max(g, base_t * 0.4)
         nd, ng = int(d * f1 + rng.integers(1, 40)), int(g * f2 + rng.integers(1, 40))
         nt = max(int(t * f3), nd + ng) + int(rng.integers(0, 20))
         feed2.loc[j, ["results_turnout", "results_dem", "results_gop"]] = [nt, nd, ng]
